@@ -58,9 +58,24 @@ class Lock:
 
 
 def strip_coq_comments(text):
-    out, depth, i = [], 0, 0
-    while i < len(text):
-        if text.startswith("(*", i):
+    """Remove comments (nested) and blank out string literals, the way Coq's lexer sees them:
+    a '(*' inside a string does not open a comment, a string inside a comment is skipped as a string."""
+    out, depth, i, n = [], 0, 0, len(text)
+    while i < n:
+        c = text[i]
+        if c == '"':
+            j = i + 1
+            while j < n:
+                if text[j] == '"':
+                    if j + 1 < n and text[j + 1] == '"':
+                        j += 2
+                        continue
+                    break
+                j += 1
+            if depth == 0:
+                out.append('""')
+            i = j + 1
+        elif text.startswith("(*", i):
             depth += 1
             i += 2
         elif text.startswith("*)", i) and depth > 0:
@@ -68,7 +83,7 @@ def strip_coq_comments(text):
             i += 2
         else:
             if depth == 0:
-                out.append(text[i])
+                out.append(c)
             i += 1
     return "".join(out)
 
